@@ -456,7 +456,7 @@ def clause_b(ctx, P):
     ptr = tracer(P, pt)
     e_gt = guard_edges(P, pt, lambda atom, outcome, bb: atom[0] == "binop" and atom[1] == "Gt" and outcome is False)
     popb = [b for b, t in pt.calls() if name_matches(cname(t), "BinaryHeap::pop")]
-    ok = bool(popb) and all(must_pass_edges(pt, b, e_gt) for b in popb)
+    ok = bool(popb) and all(guarded(P, pt, b, e_gt) for b in popb)     # also through a `matches!(.., Some(v) if v <= now)` flag
     ctx.ob("C12b.pop-only-passed", pt.name, ok, pt.loc(), "pop_timers_till pops exactly the timers with v <= now")
     z = P.adt("service_daemon::Zeroconf")
     ty = [f["ty"] for f in z["variants"][0]["fields"] if f["name"] == "timers"]
